@@ -232,9 +232,13 @@ func genSegs(t *rapid.T) []segment {
 			l = rapid.IntRange(0, 60).Draw(t, "len")
 		}
 		data := make([]byte, l)
-		mode := rapid.IntRange(0, 2).Draw(t, "fill")
+		mode := rapid.IntRange(0, 3).Draw(t, "fill")
 		for k := range data {
 			switch mode {
+			case 3:
+				// bytes that look like text: hexadecimal digits, white space
+				// (a binary segment is binary whatever its bytes look like)
+				data[k] = "0123456789abcdefABCDEF \n\r\t%!"[rapid.IntRange(0, 27).Draw(t, "textbyte")]
 			case 0:
 				data[k] = byte(rapid.IntRange(0, 255).Draw(t, "b"))
 			case 1:
@@ -285,7 +289,7 @@ func nontrivial(c *pfbCase) bool {
 func TestP1Streams(t *testing.T) {
 	rec := ev.New("C14", "streams")
 	defer rec.Finish(t)
-	rec.Rule("segment sequences (0-8 segments of type 1/2, lengths 0..700 incl. empty, bytes random or hostile 80 01 02 03 patterns), with end marker (+ trailing garbage) or ending after a complete segment; caller buffer-size pattern (1, small, odd/even mixes, large) and underlying read schedule (all at once, 1-byte, drawn chunk sizes, last chunk with EOF) drawn per case; in a quarter of the cases only the first 0-6 reads use the drawn sizes and the rest of the stream is transferred with io.Copy; model: text verbatim, binary as lower-case hex. Each Read must fill the buffer unless it ends the stream. Non-trivial: >= 1 odd-length binary or empty segment and >= 1 odd buffer size.")
+	rec.Rule("segment sequences (0-8 segments of type 1/2, lengths 0..700 incl. empty, bytes random, hostile 80 01 02 03 patterns, or text-like: hexadecimal digits and white space), with end marker (+ trailing garbage) or ending after a complete segment; caller buffer-size pattern (1, small, odd/even mixes, large) and underlying read schedule (all at once, 1-byte, drawn chunk sizes, last chunk with EOF) drawn per case; in a quarter of the cases only the first 0-6 reads use the drawn sizes and the rest of the stream is transferred with io.Copy; model: text verbatim, binary as lower-case hex. Each Read must fill the buffer unless it ends the stream. Non-trivial: >= 1 odd-length binary or empty segment and >= 1 odd buffer size.")
 	ev.SetupRapid(200000, 8000000)
 	rapid.Check(t, func(t *rapid.T) {
 		c := &pfbCase{Segs: genSegs(t)}
